@@ -89,6 +89,7 @@ type WorkerResult struct {
 	LogHash  uint64                 `json:"log_hash"`
 	Failure  *kit.Trace             `json:"failure,omitempty"`
 	FailN    int64                  `json:"fail_n"`
+	Arch     string                 `json:"goarch"`
 	Stride   int64                  `json:"stride"`
 	Known    map[string]*KnownHit   `json:"known,omitempty"`
 	Samples  []*kit.Trace           `json:"samples,omitempty"`
@@ -133,7 +134,7 @@ func cmdWork(args []string) int {
 		}
 	}
 	st := kit.NewStats()
-	res := &WorkerResult{Property: *prop, Seed: *seed, First: *start, Stride: *stride, Known: map[string]*KnownHit{}}
+	res := &WorkerResult{Property: *prop, Seed: *seed, First: *start, Stride: *stride, Arch: runtime.GOARCH, Known: map[string]*KnownHit{}}
 	t0 := time.Now()
 	sigs := map[uint64]struct{}{}
 	shift := uint(0)
